@@ -51,7 +51,7 @@ theorem nextCmd_frame (sc : List Cmd) : ∀ (s : State),
   | cons c rest ih =>
     intro s
     cases c with
-    | play a => simp [nextCmd]
+    | play a c => simp [nextCmd]
     | close => simp [nextCmd]
     | ctl k i =>
       simp only [nextCmd]
@@ -66,7 +66,7 @@ theorem nextCmd_frame (sc : List Cmd) : ∀ (s : State),
 
 /-- the program counters at which a call of the control script starts -/
 theorem nextCmd_cases (P : MPc → Prop) (sc : List Cmd) : ∀ (s : State),
-    P .done → P .kHAcq → (∀ a, P (.pAcq a)) →
+    P .done → P .kHAcq → (∀ a c, P (.pAcq a c)) →
     (∀ k i, i < s.players.length → P (.cAcq k i)) →
     (∀ i, i < s.players.length → P (.jJoin i)) → P (nextCmd s sc).mpc := by
   induction sc with
@@ -74,7 +74,7 @@ theorem nextCmd_cases (P : MPc → Prop) (sc : List Cmd) : ∀ (s : State),
   | cons c rest ih =>
     intro s h1 h2 h3 h4 h5
     cases c with
-    | play a => simpa [nextCmd] using h3 a
+    | play a c => simpa [nextCmd] using h3 a c
     | close => simpa [nextCmd] using h2
     | ctl k i =>
       simp only [nextCmd]
@@ -94,7 +94,7 @@ theorem mem_nextCmd_log (e : Ev) (sc : List Cmd) : ∀ (s : State),
   | cons c rest ih =>
     intro s h
     cases c with
-    | play a => exact Or.inl (by simpa [nextCmd] using h)
+    | play a c => exact Or.inl (by simpa [nextCmd] using h)
     | close => exact Or.inl (by simpa [nextCmd] using h)
     | ctl k i =>
       simp only [nextCmd] at h
@@ -146,7 +146,7 @@ theorem mem_nextCmd_log (e : Ev) (sc : List Cmd) : ∀ (s : State),
   (nextCmd_frame _ _).2.2.2.2.2.2
 
 theorem next_cases (P : MPc → Prop) (s : State) (e : Ev)
-    (h1 : P .done) (h2 : P .kHAcq) (h3 : ∀ a, P (.pAcq a))
+    (h1 : P .done) (h2 : P .kHAcq) (h3 : ∀ a c, P (.pAcq a c))
     (h4 : ∀ k i, i < s.players.length → P (.cAcq k i))
     (h5 : ∀ i, i < s.players.length → P (.jJoin i)) : P (s.next e).mpc :=
   nextCmd_cases P _ _ h1 h2 h3 h4 h5
@@ -169,7 +169,7 @@ def afterLoop (pc : PPc) : Bool :=
 /-- `written ++ todo` is the chunk sequence; a pending write has a chunk; the loop is left
     only at the end of the chunks or on `halting` -/
 structure PLoc (cfg : Cfg) (p : Player) : Prop where
-  chunked : p.all = chunksOf cfg.cs p.audio
+  chunked : p.all = chunksOf p.cs p.audio
   pre : p.written ++ p.todo = p.all
   wr : p.pc = .write → p.todo ≠ []
   fin : afterLoop p.pc = true → p.todo = [] ∨ p.halting = true
